@@ -553,7 +553,8 @@ def _translate_erase(fn):
     if [x.arg for x in fn.args.args] != ['self', 'node']:
         _fail(TP, fn, '_erase_arg_defaults signature')
     env = {}
-    out = {'erase_defaults': 'EraseNothing', 'erase_kwdefaults': 'EraseNothing', 'erase_const': 'EConstNone'}
+    out = {'erase_defaults': 'EraseNothing', 'erase_kwdefaults': 'EraseNothing', 'erase_const': 'EConstNone',
+           'erase_kwconst': 'EConstNone'}
     returned = False
     for st in _nodoc(fn.body):
         if isinstance(st, ast.Assign) and len(st.targets) == 1 and isinstance(st.targets[0], ast.Name):
@@ -577,11 +578,7 @@ def _translate_erase(fn):
                     s = iff.body[0]
                     if isinstance(s, ast.Assign) and len(s.targets) == 1 \
                             and _u(_subst(s.targets[0], env)) == 'node.args.kw_defaults[%s]' % i:
-                        c = _const_of_parse_expression(s.value, s)
-                        if out['erase_defaults'] != 'EraseNothing' and c != out['erase_const']:
-                            out['erase_const'] = 'EConstOther'
-                        else:
-                            out['erase_const'] = c
+                        out['erase_kwconst'] = _const_of_parse_expression(s.value, s)
                         out['erase_kwdefaults'] = 'ErasePresent'
                         continue
             _fail(TP, st, 'unrecognised loop in _erase_arg_defaults')
@@ -763,6 +760,7 @@ def translate(repo):
         '  erase_defaults := %s;' % er['erase_defaults'],
         '  erase_kwdefaults := %s;' % er['erase_kwdefaults'],
         '  erase_const := %s;' % er['erase_const'],
+        '  erase_kwconst := %s;' % er['erase_kwconst'],
         '  erase_before_transform := %s;' % erase_first,
         '  deco_top := %s;' % fx['deco_top'],
         '  deco_nested := %s;' % fx['deco_nested'],
